@@ -97,3 +97,83 @@ def decorators_and_globals(relpath):
         for n in ast.walk(fi.node):
             if isinstance(n, (ast.Global, ast.Nonlocal)): out.append((q, ast.unparse(n)))
     return out
+
+
+import builtins as _bi
+
+def unresolved_names(relpath):
+    """names loaded in a function that are bound nowhere: not a parameter, local, enclosing local, module-level name or builtin
+    (a NameError waiting for the path that reaches it)"""
+    m = Module.get(relpath)
+    if any(isinstance(s_, ast.ImportFrom) and any(a.name == '*' for a in s_.names) for s_ in m.tree.body):
+        return []        # `from X import *` binds names this scan cannot enumerate: such a module is not decided here
+    modnames = set(m.funcs) | set(m.classes) | set(m.consts) | set(m.imports) | {n.split('.')[0] for n in m.funcs}
+    for s in m.tree.body:
+        for n in ast.walk(s):
+            if isinstance(n, ast.Name) and isinstance(n.ctx, ast.Store) and s in m.tree.body and not isinstance(s, (ast.FunctionDef, ast.ClassDef)): modnames.add(n.id)
+    out = []
+    def visit(fn, enclosing):
+        local = {a.arg for a in fn.args.args + fn.args.kwonlyargs} | ({fn.args.vararg.arg} if fn.args.vararg else set()) | ({fn.args.kwarg.arg} if fn.args.kwarg else set())
+        inner = []
+        for n in ast.walk(fn):
+            if n is fn: continue
+            if isinstance(n, (ast.FunctionDef, ast.ClassDef)): local.add(n.name)
+            if isinstance(n, ast.FunctionDef): inner.append(n)
+            if isinstance(n, ast.Name) and isinstance(n.ctx, ast.Store): local.add(n.id)
+            if isinstance(n, ast.ExceptHandler) and n.name: local.add(n.name)
+            if isinstance(n, (ast.Import, ast.ImportFrom)):
+                for a in n.names: local.add((a.asname or a.name).split('.')[0])
+            if isinstance(n, ast.comprehension):
+                for t in ast.walk(n.target):
+                    if isinstance(t, ast.Name): local.add(t.id)
+        scope = local | enclosing
+        nested_ids = set()
+        for i in inner:
+            for n in ast.walk(i): nested_ids.add(id(n))
+        for n in ast.walk(fn):
+            if id(n) in nested_ids: continue
+            if isinstance(n, ast.Name) and isinstance(n.ctx, ast.Load) and n.id not in scope and n.id not in modnames and not hasattr(_bi, n.id):
+                out.append((fn.name, n.id, n.lineno))
+        for i in inner:
+            # direct children only (deeper ones are visited recursively)
+            visit(i, scope)
+    for s in m.tree.body:
+        if isinstance(s, ast.FunctionDef): visit(s, set())
+        if isinstance(s, ast.ClassDef):
+            for c in s.body:
+                if isinstance(c, ast.FunctionDef): visit(c, set())
+    # deduplicate
+    return sorted(set(out))
+
+def unguarded_split_unpacks(relpath):
+    """`a, b = X.split(sep)` without a preceding length check: ValueError for a key with no / several separators"""
+    m = Module.get(relpath)
+    out = []
+    for q, fi in m.funcs.items():
+        for n in ast.walk(fi.node):
+            if isinstance(n, ast.Assign) and isinstance(n.targets[0], (ast.Tuple, ast.List)) and isinstance(n.value, ast.Call) and isinstance(n.value.func, ast.Attribute) \
+               and n.value.func.attr == 'split':
+                # split(sep, maxsplit) with len(targets) == maxsplit + 1 still needs the separator to be present
+                out.append((q, ast.unparse(n), n.lineno))
+    return out
+
+def conversions_outside_handlers(relpath, excs=('ValueError',)):
+    """float(...)/int(...) calls on non-literal arguments that are not lexically inside a try whose handlers catch ValueError"""
+    m = Module.get(relpath)
+    out = []
+    for q, fi in m.funcs.items():
+        guarded = set()
+        for n in ast.walk(fi.node):
+            if isinstance(n, ast.Try):
+                names = set()
+                for h in n.handlers:
+                    if h.type is None: names.add('*')
+                    elif isinstance(h.type, ast.Tuple): names |= {ast.unparse(e) for e in h.type.elts}
+                    else: names.add(ast.unparse(h.type))
+                if names & (set(excs) | {'*', 'Exception'}):
+                    for b in n.body:
+                        for x in ast.walk(b): guarded.add(id(x))
+        for n in ast.walk(fi.node):
+            if isinstance(n, ast.Call) and isinstance(n.func, ast.Name) and n.func.id in ('float', 'int') and n.args and not isinstance(n.args[0], ast.Constant) and id(n) not in guarded:
+                out.append((q, ast.unparse(n), n.lineno))
+    return out
